@@ -11,6 +11,7 @@ import (
 	"verif/harness/c03/shapes/s6"
 	"verif/harness/c03/shapes/s7"
 	"verif/harness/c03/shapes/s8"
+	"verif/harness/c03/shapes/x2"
 )
 
 func All() []*rx.Family {
@@ -18,4 +19,4 @@ func All() []*rx.Family {
 }
 
 // AllC06 adds the two-realm ownership family to the C03 families.
-func AllC06() []*rx.Family { return All() }
+func AllC06() []*rx.Family { return append(All(), x2.Family()) }
